@@ -303,7 +303,10 @@ func (i *InsertStatement) Format(opts FormatOptions) string {
 	if i.Query != nil {
 		sb.WriteString(f.clauseSep())
 		if fq, ok := i.Query.(Formatter); ok {
-			sb.WriteString(fq.Format(opts))
+			// the source query is part of the INSERT: no terminator before ON CONFLICT / RETURNING
+			queryOpts := opts
+			queryOpts.AddSemicolon = false
+			sb.WriteString(fq.Format(queryOpts))
 		} else {
 			sb.WriteString(stmtSQL(i.Query))
 		}
@@ -713,7 +716,10 @@ func (c *CreateViewStatement) Format(opts FormatOptions) string {
 	sb.WriteString(f.kw("AS"))
 	sb.WriteString(f.clauseSep())
 	if qs, ok := c.Query.(Formatter); ok {
-		sb.WriteString(qs.Format(opts))
+		// the defining query is part of this statement: terminate only the whole
+		queryOpts := opts
+		queryOpts.AddSemicolon = false
+		sb.WriteString(qs.Format(queryOpts))
 	} else {
 		sb.WriteString(stmtSQL(c.Query))
 	}
@@ -763,7 +769,10 @@ func (c *CreateMaterializedViewStatement) Format(opts FormatOptions) string {
 	sb.WriteString(f.kw("AS"))
 	sb.WriteString(f.clauseSep())
 	if qs, ok := c.Query.(Formatter); ok {
-		sb.WriteString(qs.Format(opts))
+		// the defining query is part of this statement: terminate only the whole
+		queryOpts := opts
+		queryOpts.AddSemicolon = false
+		sb.WriteString(qs.Format(queryOpts))
 	} else {
 		sb.WriteString(stmtSQL(c.Query))
 	}
@@ -1143,7 +1152,15 @@ func formatWith(w *WithClause, f *formatter) string {
 		if len(cte.Columns) > 0 {
 			s += "(" + strings.Join(safeNames(cte.Columns), ", ") + ") "
 		}
-		s += f.kw("AS") + " ("
+		s += f.kw("AS") + " "
+		if cte.Materialized != nil {
+			if *cte.Materialized {
+				s += f.kw("MATERIALIZED") + " "
+			} else {
+				s += f.kw("NOT MATERIALIZED") + " "
+			}
+		}
+		s += "("
 		if qs, ok := cte.Statement.(Formatter); ok {
 			// the CTE body sits inside parentheses: no statement terminator there
 			bodyOpts := f.opts
